@@ -31,7 +31,7 @@ import traceback
 from .common import Check, Err, Raw, cval
 
 IMPORTS = ("From Coq Require Import List NArith ZArith Bool.\n"
-           "From Verif Require Import Base.Val C21.Model_C21.")
+           "From Verif Require Import Base.Val C21.Model_C21 C21.Spec_C21 C21.Proofs_C21.")
 ANCHORS = ["ebuild/triggers.py::_strip_offset", "ebuild/triggers.py::collapse_envd", "ebuild/triggers.py::simple_chksum_compare",
            "ebuild/triggers.py::gen_config_protect_filter", "ebuild/triggers.py::gen_collision_ignore_filter",
            "ebuild/triggers.py::ConfigProtectInstall", "ebuild/triggers.py::ConfigProtectInstall_restore",
@@ -45,7 +45,9 @@ MASK_POOL = ["/etc/m", "/opt/c/m", "/etc/x/", "/etc", "/usr/etc/", "/opt/c/../c/
 CI_POOL = ["/etc/ig*", "/etc/x", "/etc/x/", "/etc/x/*", "/opt/c/foo", "*/q", "/etc/[ab]*", "/etc/?oo", "etc/q",
            "/etc/q", "/var/lib/d", "/etc/[!b]oo", "/etc/[a-c]ar", "/opt/c/[", "*.conf", "/usr/etc", "/etc/foo"]
 OFFSETS = ["/"] * 9 + ["/o"] * 7 + ["/o/"] * 2 + ["/o/p"] * 2
-SEP = set("@|;^\"")
+SEP = set("@|;^\",")
+ATTRS = ["644.0.0"] * 4 + ["600.0.0", "640.0.100", "755.0.0", "644.1000.100", "660.1000.0", "4755.0.0"]
+DEF_ATTR = "644.0.0"
 
 
 # --------------------------------------------------------------------------- generator
@@ -100,16 +102,17 @@ def gen_case(rng, allow_uninstall_offset=True):
             if rng.random() < 0.1:
                 new[p] = ("s", rng.choice(["t1", "../t2", "bar"]))
             else:
-                new[p] = ("f", t("n"))
+                new[p] = ("f", t("n"), rng.choice(ATTRS))
     # ---- the live tree
-    for p, (k, data) in new.items():
+    for p, nd in new.items():
+        k, data = nd[0], nd[1]
         r = rng.random()
         if r < 0.15:
             continue
         if r < 0.33 and k == "f":
-            live[p] = ("f", data)
+            live[p] = ("f", data, rng.choice([nd[2], nd[2], rng.choice(ATTRS)]))
         elif r < 0.93:
-            live[p] = ("f", t("L"))
+            live[p] = ("f", t("L"), rng.choice(ATTRS))
         else:
             live[p] = ("s", rng.choice(["t1", "zz"]))
         if rng.random() < 0.6:          # pending updates beside it
@@ -122,31 +125,31 @@ def gen_case(rng, allow_uninstall_offset=True):
                     nm = rng.choice(["._cfg12_" + n, "._cfg 1_2_" + n, "._cfg+001_" + n, "._cfg0001-" + n,
                                      "._cfg0001_" + n + "x", "._cfgabcd_" + n, "._cfg00012_" + n, "._cfg0005", "._cfg-001_" + n,
                                      "._cfg0002_" + rng.choice(NAMES)])
-                live.setdefault(f"{d}/{nm}", ("f", data if (k == "f" and rng.random() < 0.4) else t("P")))
+                live.setdefault(f"{d}/{nm}", ("f", data if (k == "f" and rng.random() < 0.4) else t("P"), rng.choice(ATTRS)))
     # ---- the old package
     if mode != "install":
         cands = list(new) if mode == "replace" else []
         cands += [f"{d}/{n}" for d, n in rng.sample(slots, rng.randint(2, 5))]
         for p in rng.sample(cands, min(len(cands), rng.randint(2, 6))):
             rec = t("R")
-            old[p] = ("f", rec)
+            old[p] = ("f", rec, "")
             if p in live:
                 if live[p][0] == "f" and p not in new and rng.random() < 0.5:
-                    old[p] = ("f", live[p][1])        # unmodified since it was recorded
+                    old[p] = ("f", live[p][1], "")    # unmodified since it was recorded
                 continue
             r = rng.random()
             if r < 0.15:
                 continue                              # recorded, but gone from the live tree
             if r < 0.55:
-                live[p] = ("f", rec)                  # unmodified
+                live[p] = ("f", rec, rng.choice(ATTRS))    # unmodified
             elif r < 0.95:
-                live[p] = ("f", t("M"))               # modified by the administrator
+                live[p] = ("f", t("M"), rng.choice(ATTRS))  # modified by the administrator
             else:
                 live[p] = ("s", "t1")
     # a few unrelated live files, and explicit directories (COLLISION_IGNORE directory entries)
     for _ in range(rng.choice([0, 1, 2])):
         d, n = rng.choice(slots)
-        live.setdefault(f"{d}/{n}", ("f", t("U")))
+        live.setdefault(f"{d}/{n}", ("f", t("U"), rng.choice(ATTRS)))
     livedirs = rng.sample(["/etc/x", "/var/lib/d", "/usr/etc", "/opt/c/foo", "/etc/foo"], rng.choice([0, 1, 2]))
     livedirs = [d for d in livedirs if d not in live and d not in new and d not in old]
     probes = rng.sample([f"{d}/{n}" for d, n in slots], 4) + rng.sample(
@@ -203,9 +206,9 @@ class Impl:
                        "envd": [("10x", [("CONFIG_PROTECT", "/etc /opt"), ("CONFIG_PROTECT_MASK", "/etc/m /etc/n"),
                                          ("COLLISION_IGNORE", "/a* /b")])],
                        "xp": [], "xm": [], "xi": [], "livedirs": [], "probes": ["/etc/foo"],
-                       "live": [("/etc/foo", ("f", "OLD")), ("/etc/._cfg0000_foo", ("f", "X")), ("/etc/bar", ("f", "B"))],
-                       "new": [("/etc/foo", ("f", "NEW")), ("/usr/x", ("f", "1")), ("/usr/y", ("s", "x"))],
-                       "old": [("/etc/bar", ("f", "B")), ("/etc/foo", ("f", "Q"))]}, base=d)
+                       "live": [("/etc/foo", ("f", "OLD", DEF_ATTR)), ("/etc/._cfg0000_foo", ("f", "X", DEF_ATTR)), ("/etc/bar", ("f", "B", DEF_ATTR))],
+                       "new": [("/etc/foo", ("f", "NEW", "600.1000.100")), ("/usr/x", ("f", "1", DEF_ATTR)), ("/usr/y", ("s", "x"))],
+                       "old": [("/etc/bar", ("f", "B", "")), ("/etc/foo", ("f", "Q", ""))]}, base=d)
 
     def close(self):
         shutil.rmtree(self.base, ignore_errors=True)
@@ -217,6 +220,9 @@ class Impl:
         if node[0] == "f":
             with open(p, "wb") as f:
                 f.write(node[1].encode())
+            mode, uid, gid = (node[2] or DEF_ATTR).split(".")
+            os.chown(p, int(uid), int(gid))
+            os.chmod(p, int(mode, 8))
             os.utime(p, (1_000_000_000, 1_000_000_000))
         else:
             os.symlink(node[1], p)
@@ -229,7 +235,7 @@ class Impl:
         os.makedirs(mt)
         os.makedirs(off, exist_ok=True)
         for name, kv in case["envd"]:
-            self._put(off, "/etc/env.d/" + name, ("f", envd_text(name, kv)))
+            self._put(off, "/etc/env.d/" + name, ("f", envd_text(name, kv), DEF_ATTR))
         for rel, node in case["live"]:
             self._put(off, rel, node)
         for d in case["livedirs"]:
@@ -307,8 +313,9 @@ class Impl:
                 if os.path.islink(p):
                     out[p] = ["s", os.readlink(p)]
                 else:
+                    st = os.lstat(p)
                     with open(p, "rb") as fh:
-                        out[p] = ["f", fh.read().decode("latin1")]
+                        out[p] = ["f", fh.read().decode("latin1"), "%o.%d.%d" % (st.st_mode & 0o7777, st.st_uid, st.st_gid)]
             for d in list(dn):
                 p = os.path.join(dp, d)
                 if os.path.islink(p):
@@ -376,7 +383,7 @@ def pre_tree(case):
     pre = {}
     op = off_prefix(case["offset"])
     for name, kv in case["envd"]:
-        pre[f"{op}/etc/env.d/{name}"] = ["f", envd_text(name, kv)]
+        pre[f"{op}/etc/env.d/{name}"] = ["f", envd_text(name, kv), DEF_ATTR]
     for rel, node in case["live"]:
         pre[op + rel] = list(node)
     return pre
@@ -397,10 +404,17 @@ def chk_text(s):
     return s
 
 
+def fdata(nd, tk=None):
+    """the data field of a node row: "content,attrs" for a file, the target for a symlink"""
+    if nd[0] != "f":
+        return nd[1] if nd[0] == "s" else ""
+    return (tk or {}).get(nd[1], nd[1]) + "," + nd[2]
+
+
 def show_tree(tree, tk):
     rows = []
-    for p, (k, data) in tree.items():
-        rows.append(f"{p};{k};{tk.get(data, data) if k == 'f' else data}")
+    for p, nd in tree.items():
+        rows.append(f"{p};{nd[0]};{fdata(nd, tk)}")
     return "|".join(sorted(rows))
 
 
@@ -408,14 +422,16 @@ def c_input(case, new_entries):
     op = off_prefix(case["offset"])
     tk = tokens(case)
     pre = pre_tree(case)
-    fs_rows = [f"{chk_text(p)};{k};{chk_text(tk.get(d, d) if k == 'f' else d)}" for p, (k, d) in sorted(pre.items())]
+    fs_rows = [f"{chk_text(p)};{nd[0]};{fdata(nd, tk)}" for p, nd in sorted(pre.items())]
     fs_rows += [f"{op}{d};d;" for d in case["livedirs"]]
-    new_rows = [f"{p};{k};{chk_text(d)}" for p, (k, d) in new_entries]
-    old_rows = [f"{p};{k};{d}" for p, (k, d) in case["old"]]
+    new_rows = [f"{p};{nd[0]};{fdata(nd)}" for p, nd in new_entries]
+    old_rows = [f"{p};{nd[0]};{fdata(nd)}" for p, nd in case["old"]]
     env_rows = [";".join([chk_text(n)] + [f"{k}^{chk_text(v)}" for k, v in kv]) for n, kv in case["envd"]]
     mode = {"install": "0", "replace": "1", "uninstall": "2"}[case["mode"]] + ("1" if case["coll"] else "0")
     secs = [mode, case["offset"], "|".join(env_rows), "|".join(case["xp"]), "|".join(case["xm"]), "|".join(case["xi"]),
             "|".join(fs_rows), "|".join(new_rows), "|".join(old_rows), "|".join(case["probes"])]
+    for row in fs_rows + new_rows + old_rows:
+        assert row.count(";") == 2 and row.count(",") <= 1 and not (set(row) & set("@|^\"")), row
     txt = "@".join(secs)
     assert txt.count("@") == 9
     return cs(txt)
@@ -424,7 +440,7 @@ def c_input(case, new_entries):
 def new_entries_of(case):
     """the new package as the image scan yields it: every parent directory + the entries"""
     ents = [(p, tuple(n)) for p, n in case["new"]]
-    ents += [(d, ("d", "")) for d in sorted(parents(p for p, _ in case["new"]))]
+    ents += [(d, ("d",)) for d in sorted(parents(p for p, _ in case["new"]))]
     return sorted(ents)
 
 
@@ -597,7 +613,7 @@ def main(chk: Check):
     try:
         # MergeEngine.uninstall only handles an offset with fixes/C20-1 (C20's repair); probe it
         pr = impl.run({"offset": "/o", "mode": "uninstall", "coll": False, "envd": [], "xp": [], "xm": [], "xi": [],
-                       "livedirs": [], "probes": [], "live": [("/usr/x", ("f", "X"))], "new": [], "old": [("/usr/x", ("f", "X"))]})
+                       "livedirs": [], "probes": [], "live": [("/usr/x", ("f", "X", DEF_ATTR))], "new": [], "old": [("/usr/x", ("f", "X", ""))]})
         un_off = pr.get("err") is None and "/o/usr/x" not in pr.get("tree", {"/o/usr/x": 1})
         if not un_off:
             chk.note("MergeEngine.uninstall does not apply the offset before the livefs intersection (fixes/C20-1 not "
@@ -636,9 +652,16 @@ def main(chk: Check):
         mism = []
         t1 = time.time()
         if ok and rows:
-            r = chk.coq_eval("merge", IMPORTS, "bstr", [(a, b) for a, b, _, _ in rows], ["mismatches run_merge cases"], shard=130)
+            r = chk.coq_eval("merge", IMPORTS, "bstr", [(a, b) for a, b, _, _ in rows],
+                             ["mismatches run_merge cases",
+                              # the theorems' domain condition on the package, evaluated on what the image scan delivered
+                              "where_ (fun i _ => negb (locs_wf (inst_of (dec_input i)))) cases"], shard=130)
             if r is not None:
                 mism = r[0]
+                for i in r[1][:2]:
+                    chk.violation("correspondence", {"what": "a scanned package has a location outside the theorems' domain "
+                                                             "(Spec_C21.locs_wf: dirname/basename do not join back)",
+                                                     "input": rows[i][2]}, no_input=True)
         tm["coq"] = round(time.time() - t1, 1)
         chk.cov["timing_s"] = tm
         for case, b, res in prop_bad[:4]:
